@@ -5,7 +5,7 @@ use crate::xs;
 use serde_json::json;
 
 /// allocation-tilted core alphabet
-fn core_alphabet() -> Vec<BOp> {
+pub fn core_alphabet() -> Vec<BOp> {
     vec![
         BOp::Id,
         BOp::BeginFunction,
@@ -24,6 +24,7 @@ fn core_alphabet() -> Vec<BOp> {
         BOp::TypePointer(None, 1),
         BOp::TypePointer(Some(2), 0), // explicit id colliding with an earlier allocation
         BOp::TypePointer(Some(40), 0),
+        BOp::SetVersion,
         BOp::Continue,
     ]
 }
@@ -68,6 +69,9 @@ pub fn run(tier: Tier) -> Run {
         "type_method_alphabet": alpha2.len(), "type_methods": sites.len(), "type_method_enumeration_depth": tier.pick(2, 3)}));
     run.set("bound_completed", json!({"enumeration_depth": a.depth_completed, "closure_depth": if b.depth_completed == usize::MAX { d_clos } else { b.depth_completed }, "type_method_depth": c.depth_completed}));
     run.set("closure", json!({"states": b.states, "transitions": b.transitions, "per_depth_states": b.per_depth_states}));
+    if tier == Tier::Thorough {
+        crate::report::second_engine(&mut run, "C13", 4);
+    }
     run.set("caps_hit", json!(b.caps_hit));
     run.set("exhaustive", json!(b.caps_hit.is_empty()));
     run.set("samples", json!(a.sample_histories.iter().chain(c.sample_histories.iter()).collect::<Vec<_>>()));
